@@ -60,7 +60,22 @@ func newSTWorld(rng *rand.Rand) *stWorld {
 		od := []string{"", ".", "..", "a/b", ".hidden", ".tmp-k1", "...", strings.Repeat("L", 240)}
 		rng.Shuffle(len(od), func(i, j int) { od[i], od[j] = od[j], od[i] })
 		pool = append(od[:2], pool...)
+		if rng.Intn(2) == 0 {
+			// ... together with a key that reads like the escaped form of one of them
+			pairs := [][2]string{{"", "%00"}, {".hidden", "%2Ehidden"}, {"a/b", "a%2Fb"}, {".", "%2E"}, {"..", "%2E."}, {"%", "%25"}, {".tmp-k1", "%2Etmp-k1"}}
+			pr := pairs[rng.Intn(len(pairs))]
+			pool = append([]string{pr[0], pr[1]}, pool...)
+		}
 	}
+	seen := map[string]bool{}
+	uniq := pool[:0:0]
+	for _, k := range pool {
+		if !seen[k] {
+			seen[k] = true
+			uniq = append(uniq, k)
+		}
+	}
+	pool = uniq
 	for i, k := range []string{"k1", "k2", "k3"} {
 		w.keys[k] = pool[i]
 	}
